@@ -248,6 +248,29 @@ for _c in CHECKS:
         _c["text"] = _c["text"] + " " + _WAVE5[_c["property_id"]]
     if _c["property_id"] == "C07":
         _c["note"] = _c["note"] + " One known finding (astropy Longitude / Latitude as LEFT operand of + and -: the result is computed by astropy without consulting Phase) is listed in known_findings.jsonl and printed as KNOWN-FINDING."
+
+# alphabets added after the sixth wave (bug hunt on the unmodified code + seeds K/L)
+_WAVE6 = {
+ "C02": "Index lists / integers / None on several trailing axes, also separated by slices (labels must stay or the index be refused).",
+ "C03": "float32 shifts on long signals; one-sided rule for whole-sample Quantity shifts with a dense family of 640 multiples of a round step at seven round rates.",
+ "C04": "Large shifts a few thousandths of a bin off a whole bin.",
+ "C05": "Lengths with a prime factor above 11.",
+ "C07": "Phase divisors that need both doubles; float16 / int8 / uint8 factors; factors and divisors one ulp from unity.",
+ "C08": "Negative reference phases, NCOEFF = 1, holes of 60 s and 2 ms, reference times near power-of-two offsets for phasepol, time_at a fraction of a millisecond inside the ends of every interval and exactly on them.",
+ "C09": "A documented class attribute (dispersion constant) changed only around the call that builds the lazy result.",
+ "C10": "Slightly different sample rates on long pieces; spans of 1e5 - 1e6 s at generic rates in every grouping.",
+ "C11": "Synthetic readers at rates that are not a whole number of Hz; chunks= on a reader written to the documented hook signature; (polarisation, channel) sideband masks.",
+ "C12": "EVERY whole-sample request of a 32-sample signal written as a duration and as a Time at eight generic rates.",
+ "C13": "Signals of 140 000 x 4 samples, NumPy and Dask.",
+ "C14": "ufuncs with where= and no out=; Phase-module operations on caller-owned arrays (both doubles of a Phase snapshotted).",
+ "C15": "Near-ties whose single-double value rounds to count + 1/2; fixed-point format with zero decimals and of imaginary phases; EVERY fraction i/4999 - 1/2 in the default rendering.",
+ "C16": "Complex and long-double-denormal rates, unhashable labels, non-scalar Times already in the constructor's format; the same refusals in an interpreter started with -O.",
+ "C19": "Byte-swapped dtypes; inputs scaled by 1e-9 .. 1e-30.",
+ "C20": "Explicit axes=None, positional (s, None), -1 entries in s, bare integers for s / axes.",
+}
+for _c in CHECKS:
+    if _c["property_id"] in _WAVE6:
+        _c["text"] = _c["text"] + " " + _WAVE6[_c["property_id"]]
 _ALL = ["C%02d" % i for i in range(1, 21)]
 NOT_APPLICABLE = [{"property_id": p, "reason": "check not yet built in this session (planned in DESIGN.md; no claim made yet)"}
                   for p in _ALL if p not in {c["property_id"] for c in CHECKS}]
